@@ -3,17 +3,20 @@
     Cases:
       [CSplit o k obs]            Order.Split(k) on order o; obs = (filled, unfilled) or failure
       [CBuild asks bids lk obs]   exchange.BuildSettlement; obs = the returned Settlement or failure
-      [CHist cfg accts nd init steps]
-                                  a history through the real keepers (message router); after each
-                                  operation: accepted?, every tracked account's balance and hold per
-                                  denom, total supply per denom, the remaining order records, and
+      [CPerm asks bids asks' bids' lk obs obs']
+                                  BuildSettlement on two orderings of the same orders
+      [CMulti w accts nd markets params init steps]
+                                  a history over several markets through the real keepers (message
+                                  router); after each operation: accepted?, every tracked account's
+                                  balance and hold per denom, total supply per denom, the remaining
+                                  order records, a digest of every store of the application, and
                                   (for an accepted market settlement) the per-order amounts
                                   (assets filled, price applied, fees paid) that the real
                                   BuildSettlement reports for the stored orders.
     "corr:" tags compare with the Gallina model; "prop:" tags evaluate the property's own
     checker on the implementation's observation only. *)
 From Coq Require Import ZArith NArith PArith List String Bool.
-From PV Require Export Exchange.Arith Exchange.Settle Corr.CorrBase.
+From PV Require Export Exchange.Arith Exchange.Settle Exchange.SettleMulti Exchange.SurplusSpec Corr.CorrBase.
 Import ListNotations.
 Open Scope string_scope.
 Open Scope list_scope.
@@ -34,28 +37,75 @@ Definition Stl (ts : list transfer) (fi : list (Z * list (Z * Z))) (full : list 
   {| s_transfers := ts; s_fee_inputs := ix fi; s_full := full; s_partial := part; s_left := lft |}.
 Definition R (x : Z * Z * Z * Z) : ratio :=
   let '(pd, p, fd, f) := x in {| r_pd := P pd; r_p := p; r_fd := P fd; r_f := f |}.
-Definition Cfg (ratios : list (Z * Z * Z * Z)) (splits : list (Z * Z)) (def : Z)
-    (sflat bflat : list (Z * Z)) (market feecol : Z) : config :=
-  {| c_ratios := map R ratios; c_splits := map (fun x => (P (fst x), snd x)) splits;
-     c_default_split := def; c_seller_flat := cs sflat; c_buyer_flat := cs bflat;
-     c_market := P market; c_feecol := P feecol |}.
-Definition OpCreate (o : order) (acc : bool) : op := OCreate o acc.
-Definition OpSettle (a b : list Z) (e : bool) : op := OSettle (map P a) (map P b) e.
-Definition OpFillBids (s : Z) (ids : list Z) (ta : list (Z * Z)) (fl : option (Z * Z)) : op :=
-  OFillBids (P s) (map P ids) (cs ta) (match fl with Some (d, z) => Some (P d, z) | None => None end).
-Definition OpFillAsks (b : Z) (ids : list Z) (tp : Z * Z) (fs : list (Z * Z)) : op :=
-  OFillAsks (P b) (map P ids) (P (fst tp), snd tp) (cs fs).
+Definition oc (x : option (Z * Z)) : option coin :=
+  match x with Some (d, z) => Some (P d, z) | None => None end.
+Definition Mk (a : Z) (acc us : bool) (cask cbid sflat : list (Z * Z)) (sr : list (Z * Z * Z * Z))
+    (bflat : list (Z * Z)) (br : list (Z * Z * Z * Z)) : market :=
+  {| mk_addr := P a; mk_accepting := acc; mk_user_settle := us;
+     mk_create_ask := cs cask; mk_create_bid := cs cbid;
+     mk_seller_flat := cs sflat; mk_seller_ratios := map R sr;
+     mk_buyer_flat := cs bflat; mk_buyer_ratios := map R br |}.
+Definition Mr (a d : Z) (restricted : bool) (tr wd dp : list Z) : marker :=
+  {| mr_addr := P a; mr_denom := P d; mr_restricted := restricted;
+     mr_transfer := map P tr; mr_withdraw := map P wd; mr_deposit := map P dp |}.
+Definition Wd (feecol : Z) (blocked : list Z) (markers : list marker) : world :=
+  {| w_feecol := P feecol; w_blocked := map P blocked; w_markers := markers |}.
+Definition Pm (def : Z) (splits : list (Z * Z)) : params :=
+  {| pr_default := def; pr_splits := map (fun x => (P (fst x), snd x)) splits |}.
+Definition MpCreate (mid : Z) (o : order) (cfee : option (Z * Z)) (acc : bool) : mop := MCreate (P mid) o (oc cfee) acc.
+Definition MpSettle (mid admin : Z) (a b : list Z) (e : bool) : mop := MSettle (P mid) (P admin) (map P a) (map P b) e.
+Definition MpFillBids (mid s : Z) (ids : list Z) (ta : list (Z * Z)) (fl cf : option (Z * Z)) : mop :=
+  MFillBids (P mid) (P s) (map P ids) (cs ta) (oc fl) (oc cf).
+Definition MpFillAsks (mid b : Z) (ids : list Z) (tp : Z * Z) (fs : list (Z * Z)) (cf : option (Z * Z)) : mop :=
+  MFillAsks (P mid) (P b) (map P ids) (P (fst tp), snd tp) (cs fs) (oc cf).
+Definition MpParams (p : params) : mop := MSetParams p.
+Definition MpAccepting (mid : Z) (b : bool) : mop := MSetAccepting (P mid) b.
+Definition MpUserSettle (mid : Z) (b : bool) : mop := MSetUserSettle (P mid) b.
+Definition MpSanction (a : Z) (on : bool) : mop := MSanction (P a) on.
 
 Record sobs := {
   so_ok : bool; so_bal : list Z; so_hold : list Z; so_supply : list Z;
-  so_orders : list order; so_fills : list (Z * Z * Z * list (Z * Z)) }.
-Definition SO ok bal hold sup orders fills : sobs :=
-  {| so_ok := ok; so_bal := bal; so_hold := hold; so_supply := sup; so_orders := orders; so_fills := fills |}.
+  so_orders : list order; so_fills : list (Z * Z * Z * list (Z * Z)); so_digest : Z }.
+Definition SO ok bal hold sup orders fills digest : sobs :=
+  {| so_ok := ok; so_bal := bal; so_hold := hold; so_supply := sup; so_orders := orders; so_fills := fills;
+     so_digest := digest |}.
+
+(** Observations after a step are transmitted as differences to the previous observation (the
+    full vectors are rebuilt by [apply_delta]): changed (index, value) entries of the balance,
+    hold and supply vectors, ids of the orders that are gone, and new or changed order records
+    (a changed record keeps its place, a new one is appended: creation order). *)
+Record dobs := {
+  do_ok : bool; do_bal : list (Z * Z); do_hold : list (Z * Z); do_sup : list (Z * Z);
+  do_gone : list Z; do_upd : list order; do_fills : list (Z * Z * Z * list (Z * Z)); do_digest : Z }.
+Definition DO ok bal hold sup gone upd fills digest : dobs :=
+  {| do_ok := ok; do_bal := bal; do_hold := hold; do_sup := sup; do_gone := gone; do_upd := upd;
+     do_fills := fills; do_digest := digest |}.
+
+Fixpoint set_nth (l : list Z) (i : nat) (v : Z) : list Z :=
+  match l, i with
+  | [], _ => []
+  | _ :: r, O => v :: r
+  | x :: r, S i' => x :: set_nth r i' v
+  end.
+Definition patch (l : list Z) (ch : list (Z * Z)) : list Z :=
+  fold_left (fun l c => set_nth l (Z.to_nat (fst c)) (snd c)) ch l.
+Definition upsert (os : list order) (o : order) : list order :=
+  if existsb (fun x => Pos.eqb (o_id x) (o_id o)) os
+  then map (fun x => if Pos.eqb (o_id x) (o_id o) then o else x) os
+  else os ++ [o].
+Definition apply_delta (prev : sobs) (d : dobs) : sobs :=
+  {| so_ok := do_ok d; so_bal := patch (so_bal prev) (do_bal d); so_hold := patch (so_hold prev) (do_hold d);
+     so_supply := patch (so_supply prev) (do_sup d);
+     so_orders := fold_left upsert (do_upd d)
+                    (filter (fun o => negb (existsb (fun g => Pos.eqb (o_id o) (P g)) (do_gone d))) (so_orders prev));
+     so_fills := do_fills d; so_digest := do_digest d |}.
 
 Inductive case :=
 | CSplit (o : order) (k : Z) (obs : option (order * order))
 | CBuild (asks bids : list order) (lookup : res (option ratio)) (obs : option settlement)
-| CHist (cfg : config) (accts : list Z) (ndenoms : Z) (init : sobs) (steps : list (op * sobs)).
+| CPerm (asks bids asks' bids' : list order) (lookup : res (option ratio)) (obs obs' : option settlement)
+| CMulti (w : world) (accts : list Z) (ndenoms : Z) (markets : list (Z * market)) (pr : params)
+         (init : sobs) (steps : list (mop * dobs)).
 
 (** ** Equalities *)
 Definition order_eqb (x y : order) : bool :=
@@ -112,6 +162,22 @@ Definition fees_match (base paid : coins) (r : option ratio) (p : Z) : bool :=
       coins_eqb paid (coins_add1 base (r_fd rt) x) && ceil_ok (p * r_f rt) (r_p rt) x
   end.
 
+Definition zlist_eqb := list_eqb Z.eqb.
+Definition fill_of (fills : list filled) (id : positive) : option filled :=
+  find (fun f => Pos.eqb (o_id (fo_order f)) id) fills.
+Definition fills_in_order (fills : list filled) (os : list order) : list filled :=
+  flat_map (fun o => match fill_of fills (o_id o) with Some f => [f] | None => [] end) os.
+
+(** price applied to every ask = price of its filled part + its share of the surplus *)
+Definition prop_surplus (asks bids : list order) (fills : list filled) : list string :=
+  let fa := fills_in_order fills asks in
+  let fb := fills_in_order fills bids in
+  let own := fun f => o_price (fo_order f) in
+  let L := sumZ (map own fb) - sumZ (map own fa) in
+  tag (zlist_eqb (map fo_price fa)
+                 (zip_add (map own fa) (surplus L (map (fun f => o_assets (fo_order f)) fa))))
+      "prop:surplus_distribution".
+
 (** ** Property checker for a settlement returned by BuildSettlement *)
 Definition prop_build (asks bids : list order) (lookup : res (option ratio)) (s : settlement) : list string :=
   let inputs := asks ++ bids in
@@ -157,6 +223,8 @@ Definition prop_build (asks bids : list order) (lookup : res (option ratio)) (s 
   tag (sumZ (map fo_price (filter (fun f => o_ask (fo_order f)) fills)) =?
        sumZ (map fo_price (filter (fun f => negb (o_ask (fo_order f))) fills)))
       "prop:price_paid_ne_price_received" ++
+  (* the price improvement goes to the sellers by the documented rule (Exchange/SurplusSpec.v) *)
+  (if uniq then prop_surplus asks bids fills else []) ++
   (* transfers: each balanced and positive; together exactly the agreed movements *)
   tag (forallb (fun t => coins_eqb (idx_total (t_in t)) (idx_total (t_out t)) &&
                          forallb (fun e => coins_all_pos (snd e)) (t_in t ++ t_out t) &&
@@ -193,7 +261,6 @@ Definition mk_amap (accts : list addr) (ds : list denom) (vals : list Z) : amap 
   map (fun kv => (fst (fst kv), snd (fst kv), snd kv)) (combine (cross accts ds) vals).
 Definition project (m : amap) (accts : list addr) (ds : list denom) : list Z :=
   map (fun k => aget m (fst k) (snd k)) (cross accts ds).
-Definition zlist_eqb := list_eqb Z.eqb.
 Definition orders_eqb := list_eqb order_eqb.
 
 (** the exchange's share of collected fees: rounded up, per denom, on the total *)
@@ -213,6 +280,18 @@ Definition expected_moves (cfg : config) (fills : list pfill) (extra : amap) (ex
   let total := fold_left (fun acc f => coins_add acc (pf_fees f)) fills extra_fees in
   let share := share_of cfg total in
   add_cs (add_cs (add_cs m (c_market cfg) total 1) (c_market cfg) share (-1)) (c_feecol cfg) share 1.
+
+(** an order creation fee is collected on its own: payer -> market, the market's rounded-up share
+    of THAT fee -> fee collector *)
+Definition cfee_moves (cfg : config) (payer : addr) (cfee : option coin) (m : amap) : amap :=
+  match cfee with
+  | None => m
+  | Some c =>
+      let fee := [c] in
+      let share := share_of cfg fee in
+      add_cs (add_cs (add_cs (add_cs m payer fee (-1)) (c_market cfg) fee 1) (c_market cfg) share (-1))
+             (c_feecol cfg) share 1
+  end.
 
 Definition order_after (post : list order) (id : positive) : option order := find_order post id.
 
@@ -251,8 +330,16 @@ Definition prop_fills (cfg : config) (askids bidids : list positive) (fills : li
          end) fills) "prop:order_amounts" ++
   tag (sumZ (map pf_price (filter (fun f => o_ask (pf_order f)) fills)) =?
        sumZ (map pf_price (filter (fun f => negb (o_ask (pf_order f))) fills)))
-      "prop:price_paid_ne_price_received".
-
+      "prop:price_paid_ne_price_received" ++
+  (* the surplus goes to the sellers by the documented rule: on the filled parts *)
+  (let asks := filter (fun f => o_ask (pf_order f)) fills in
+   let own := fun f => match order_after post (o_id (pf_order f)) with
+                       | Some l => o_price (pf_order f) - o_price l
+                       | None => o_price (pf_order f) end in
+   let fa := flat_map (fun id => filter (fun f => Pos.eqb (o_id (pf_order f)) id) asks) askids in
+   let L := sumZ (map pf_price (filter (fun f => negb (o_ask (pf_order f))) fills)) - sumZ (map own fa) in
+   tag (zlist_eqb (map pf_price fa) (zip_add (map own fa) (surplus L (map pf_assets fa))))
+       "prop:surplus_distribution").
 
 (** orders not involved stay as they were; filled ones disappear or are replaced by what is left *)
 Definition prop_orders (pre post : list order) (ids : list positive) : list string :=
@@ -276,31 +363,72 @@ Definition spec_ratio_fee (cfg : config) (d : denom) (p : Z) : coins :=
   | None => []
   end.
 
-Definition prop_step (cfg : config) (keys : list (addr * denom)) (accts : list addr) (ds : list denom)
-    (pre : sobs) (o : op) (post : sobs) : list string :=
+(** What the checker knows about the configuration: taken from the operations the
+    IMPLEMENTATION accepted (never from the model's verdicts).  Only the configuration fields of
+    [mstate] are used. *)
+Definition ck_update (c : mstate) (o : mop) (ok : bool) : mstate :=
+  if negb ok then c
+  else
+    let st0 := {| st_bal := []; st_hold := []; st_orders := [] |} in
+    match o with
+    | MCreate mid ord _ _ =>
+        {| ms_st := st0; ms_market_of := ms_market_of c ++ [(o_id ord, mid)]; ms_markets := ms_markets c;
+           ms_params := ms_params c; ms_sanctioned := ms_sanctioned c |}
+    | MSetParams p =>
+        {| ms_st := st0; ms_market_of := ms_market_of c; ms_markets := ms_markets c;
+           ms_params := stored_params p; ms_sanctioned := ms_sanctioned c |}
+    | MSetAccepting mid b =>
+        match lookup (ms_markets c) mid with
+        | Some m => with_market c mid (set_flags m b (mk_user_settle m))
+        | None => c
+        end
+    | MSetUserSettle mid b =>
+        match lookup (ms_markets c) mid with
+        | Some m => with_market c mid (set_flags m (mk_accepting m) b)
+        | None => c
+        end
+    | MSanction a on =>
+        {| ms_st := st0; ms_market_of := ms_market_of c; ms_markets := ms_markets c; ms_params := ms_params c;
+           ms_sanctioned := if on then a :: ms_sanctioned c else filter (fun x => negb (Pos.eqb x a)) (ms_sanctioned c) |}
+    | _ => c
+    end.
+
+Definition prop_mstep (w : world) (c : mstate) (keys : list (addr * denom)) (accts : list addr) (ds : list denom)
+    (pre : sobs) (o : mop) (post : sobs) : list string :=
   let bal0 := mk_amap accts ds (so_bal pre) in
   let bal1 := mk_amap accts ds (so_bal post) in
   let hold0 := mk_amap accts ds (so_hold pre) in
   let hold1 := mk_amap accts ds (so_hold post) in
   let dbal := fun m => forallb (fun k => aget bal1 (fst k) (snd k) - aget bal0 (fst k) (snd k) =? aget m (fst k) (snd k)) keys in
   let dhold := fun m => forallb (fun k => aget hold1 (fst k) (snd k) - aget hold0 (fst k) (snd k) =? aget m (fst k) (snd k)) keys in
+  let cfg_for := fun mid => match lookup (ms_markets c) mid with
+                            | Some m => Some (cfg_of w m (ms_params c)) | None => None end in
+  let foreign := fun mid ids => negb (forallb (in_market c mid) ids) in
+  let untouched := zlist_eqb (so_bal pre) (so_bal post) && zlist_eqb (so_hold pre) (so_hold post) &&
+                   orders_eqb (so_orders pre) (so_orders post) in
   tag (zlist_eqb (so_supply pre) (so_supply post)) "prop:supply_changed" ++
   tag (forallb (fun d => sumZ (map (fun a => aget bal1 a d - aget bal0 a d) accts) =? 0) ds)
       "prop:coins_created_or_destroyed" ++
   if negb (so_ok post) then
-    tag (zlist_eqb (so_bal pre) (so_bal post) && zlist_eqb (so_hold pre) (so_hold post) &&
-         orders_eqb (so_orders pre) (so_orders post)) "prop:rejected_operation_changed_state"
+    tag untouched "prop:rejected_operation_changed_state" ++
+    tag (so_digest pre =? so_digest post) "prop:rejected_operation_changed_store"
   else
     match o with
-    | OCreate ord _ =>
-        tag (dbal []) "prop:create_moved_funds" ++
-        tag (dhold (add_cs [] (o_owner ord) (hold_amount ord) 1)) "prop:create_hold" ++
-        tag (orders_eqb (so_orders post) (so_orders pre ++ [ord])) "prop:create_orders"
-    | OSettle askids bidids _ =>
-        match pfills_of_obs (so_orders pre) (so_fills post) with
-        | None => ["prop:fill_of_unknown_order"]
-        | Some fills =>
+    | MCreate mid ord cfee _ =>
+        match cfg_for mid with
+        | None => ["prop:unknown_market"]
+        | Some cfg =>
+            tag (dbal (cfee_moves cfg (o_owner ord) cfee [])) "prop:create_moved_funds" ++
+            tag (dhold (add_cs [] (o_owner ord) (hold_amount ord) 1)) "prop:create_hold" ++
+            tag (orders_eqb (so_orders post) (so_orders pre ++ [ord])) "prop:create_orders"
+        end
+    | MSettle mid _ askids bidids _ =>
+        match cfg_for mid, pfills_of_obs (so_orders pre) (so_fills post) with
+        | None, _ => ["prop:unknown_market"]
+        | _, None => ["prop:fill_of_unknown_order"]
+        | Some cfg, Some fills =>
             let ids := askids ++ bidids in
+            tag (negb (foreign mid ids)) "prop:order_of_other_market_settled" ++
             tag (Nat.eqb (List.length fills) (List.length ids) &&
                  forallb (fun id => existsb (fun f => Pos.eqb (o_id (pf_order f)) id) fills) ids &&
                  forallb (fun f => Bool.eqb (o_ask (pf_order f)) (existsb (Pos.eqb (o_id (pf_order f))) askids)) fills)
@@ -310,38 +438,46 @@ Definition prop_step (cfg : config) (keys : list (addr * denom)) (accts : list a
             tag (dbal (expected_moves cfg fills [] [])) "prop:balance_deltas" ++
             tag (dhold (expected_hold fills (so_orders post))) "prop:hold_deltas"
         end
-    | OFillBids seller ids total_assets flat =>
-        match fold_right (fun id acc => match acc, find_order (so_orders pre) id with
+    | MFillBids mid seller ids total_assets flat cfee =>
+        match cfg_for mid,
+              fold_right (fun id acc => match acc, find_order (so_orders pre) id with
                                         | Some r, Some b => Some (b :: r) | _, _ => None end) (Some []) ids with
-        | None => ["prop:fill_of_unknown_order"]
-        | Some bids =>
+        | None, _ => ["prop:unknown_market"]
+        | _, None => ["prop:fill_of_unknown_order"]
+        | Some cfg, Some bids =>
             let fills := map (fun b => {| pf_order := b; pf_assets := o_assets b; pf_price := o_price b; pf_fees := o_fees b |}) bids in
             let tp := sum_price bids in
             let sfee := fold_left (fun acc c => coins_add acc (spec_ratio_fee cfg (fst c) (snd c))) tp
                           (match flat with Some (d, z) => coins_add1 [] d z | None => [] end) in
             let extra := add_cs (add_cs (add_cs [] seller (sum_assets bids) (-1)) seller tp 1) seller sfee (-1) in
+            tag (negb (foreign mid ids)) "prop:order_of_other_market_settled" ++
             tag (forallb (fun b => negb (o_ask b) && negb (Pos.eqb (o_owner b) seller)) bids) "prop:fill_bids_wrong_orders" ++
             tag (forallb (fun b => match find_order (so_orders post) (o_id b) with None => true | Some _ => false end) bids)
                 "prop:filled_order_remains" ++
             prop_orders (so_orders pre) (so_orders post) ids ++
-            tag (dbal (expected_moves cfg fills extra sfee)) "prop:balance_deltas" ++
+            tag (dbal (cfee_moves cfg seller cfee (expected_moves cfg fills extra sfee))) "prop:balance_deltas" ++
             tag (dhold (expected_hold fills (so_orders post))) "prop:hold_deltas"
         end
-    | OFillAsks buyer ids total_price fees =>
-        match fold_right (fun id acc => match acc, find_order (so_orders pre) id with
+    | MFillAsks mid buyer ids total_price fees cfee =>
+        match cfg_for mid,
+              fold_right (fun id acc => match acc, find_order (so_orders pre) id with
                                         | Some r, Some b => Some (b :: r) | _, _ => None end) (Some []) ids with
-        | None => ["prop:fill_of_unknown_order"]
-        | Some asks =>
+        | None, _ => ["prop:unknown_market"]
+        | _, None => ["prop:fill_of_unknown_order"]
+        | Some cfg, Some asks =>
             let fills := map (fun a => {| pf_order := a; pf_assets := o_assets a; pf_price := o_price a;
                                           pf_fees := coins_add (o_fees a) (spec_ratio_fee cfg (o_pd a) (o_price a)) |}) asks in
             let extra := add_cs (add_cs (add_cs [] buyer (sum_assets asks) 1) buyer (sum_price asks) (-1)) buyer fees (-1) in
+            tag (negb (foreign mid ids)) "prop:order_of_other_market_settled" ++
             tag (forallb (fun a => o_ask a && negb (Pos.eqb (o_owner a) buyer)) asks) "prop:fill_asks_wrong_orders" ++
             tag (forallb (fun a => match find_order (so_orders post) (o_id a) with None => true | Some _ => false end) asks)
                 "prop:filled_order_remains" ++
             prop_orders (so_orders pre) (so_orders post) ids ++
-            tag (dbal (expected_moves cfg fills extra fees)) "prop:balance_deltas" ++
+            tag (dbal (cfee_moves cfg buyer cfee (expected_moves cfg fills extra fees))) "prop:balance_deltas" ++
             tag (dhold (expected_hold fills (so_orders post))) "prop:hold_deltas"
         end
+    | MSetParams _ | MSetAccepting _ _ | MSetUserSettle _ _ | MSanction _ _ =>
+        tag untouched "prop:configuration_change_moved_funds"
     end.
 
 Definition corr_step (accts : list addr) (ds : list denom) (st : state) (ok : bool) (ob : sobs) : list string :=
@@ -350,14 +486,15 @@ Definition corr_step (accts : list addr) (ds : list denom) (st : state) (ok : bo
   tag (zlist_eqb (project (st_hold st) accts ds) (so_hold ob)) "corr:holds" ++
   tag (orders_eqb (st_orders st) (so_orders ob)) "corr:orders".
 
-Fixpoint check_steps (cfg : config) (keys : list (addr * denom)) (accts : list addr) (ds : list denom)
-    (i : N) (st : state) (prev : sobs) (steps : list (op * sobs)) : list string :=
+Fixpoint check_msteps (w : world) (keys : list (addr * denom)) (accts : list addr) (ds : list denom)
+    (i : N) (ms : mstate) (c : mstate) (prev : sobs) (steps : list (mop * dobs)) : list string :=
   match steps with
   | [] => []
-  | (o, ob) :: r =>
-      let '(st', ok) := step cfg st o in
-      match corr_step accts ds st' ok ob ++ prop_step cfg keys accts ds prev o ob with
-      | [] => check_steps cfg keys accts ds (N.succ i) st' ob r
+  | (o, d) :: r =>
+      let ob := apply_delta prev d in
+      let '(ms', ok) := mstep w ms o in
+      match corr_step accts ds (ms_st ms') ok ob ++ prop_mstep w c keys accts ds prev o ob with
+      | [] => check_msteps w keys accts ds (N.succ i) ms' (ck_update c o (so_ok ob)) ob r
       | errs => map (fun t => String.append t (String.append " @step " (N_to_string i))) errs
       end
   end.
@@ -369,6 +506,38 @@ Definition settlement_corr (m : settlement) (s : settlement) : list string :=
   tag (opt_eqb filled_eqb (s_partial m) (s_partial s)) "corr:partial_filled" ++
   tag (opt_eqb order_eqb (s_left m) (s_left s)) "corr:partial_left".
 
+Definition check_build (asks bids : list order) (lookup : res (option ratio)) (obs : option settlement) : list string :=
+  (match res_opt (build asks bids lookup), obs with
+   | Some m, Some s => settlement_corr m s
+   | None, None => []
+   | _, _ => ["corr:build_accepted"]
+   end) ++
+  (match build asks bids lookup with OutOfFuel => ["corr:model_out_of_fuel"] | _ => [] end) ++
+  (match obs with Some s => prop_build asks bids lookup s | None => [] end).
+
+(** Two orderings of the same orders (the harness permutes the id lists).  What may NOT depend on
+    the order, when neither settlement splits an order: every bid's amounts; every ask's price
+    applied up to the remainder units (fewer than there are asks), and its floor share exactly;
+    the total paid to the asks.  (Which order is split, and whether the settlement is accepted
+    at all, does depend on the order: only the last of a list may be split.) *)
+Definition prop_perm (asks bids asks' bids' : list order) (s s' : settlement) : list string :=
+  match s_left s, s_left s' with
+  | None, None =>
+      let f1 := filled_list s in
+      let f2 := filled_list s' in
+      let n := Z.of_nat (List.length asks) in
+      tag (forallb (fun o => match fill_of f1 (o_id o), fill_of f2 (o_id o) with
+                             | Some x, Some y => filled_eqb x y | _, _ => false end) bids)
+          "prop:bid_amounts_depend_on_order" ++
+      tag (forallb (fun o => match fill_of f1 (o_id o), fill_of f2 (o_id o) with
+                             | Some x, Some y => Z.abs (fo_price x - fo_price y) <? Z.max n 1
+                             | _, _ => false end) asks)
+          "prop:ask_price_depends_on_order_beyond_remainder" ++
+      tag (sumZ (map fo_price (fills_in_order f1 asks)) =? sumZ (map fo_price (fills_in_order f2 asks)))
+          "prop:total_paid_depends_on_order"
+  | _, _ => []
+  end.
+
 Definition check (c : case) : list string :=
   match c with
   | CSplit o k obs =>
@@ -379,20 +548,23 @@ Definition check (c : case) : list string :=
        | _, _ => ["corr:split_accepted"]
        end) ++
       (match obs with Some fu => prop_split o k fu | None => [] end)
-  | CBuild asks bids lookup obs =>
-      (match res_opt (build asks bids lookup), obs with
-       | Some m, Some s => settlement_corr m s
-       | None, None => []
-       | _, _ => ["corr:build_accepted"]
-       end) ++
-      (match build asks bids lookup with OutOfFuel => ["corr:model_out_of_fuel"] | _ => [] end) ++
-      (match obs with Some s => prop_build asks bids lookup s | None => [] end)
-  | CHist cfg accts nd init steps =>
+  | CBuild asks bids lookup obs => check_build asks bids lookup obs
+  | CPerm asks bids asks' bids' lookup obs obs' =>
+      check_build asks bids lookup obs ++ check_build asks' bids' lookup obs' ++
+      (if nodup_ids (map o_id (asks ++ bids)) then
+         match obs, obs' with
+         | Some s, Some s' => prop_perm asks bids asks' bids' s s'
+         | _, _ => []
+         end
+       else [])
+  | CMulti w accts nd markets pr init steps =>
       let accts := map P accts in
       let ds := all_denoms nd in
       let st0 := {| st_bal := mk_amap accts ds (so_bal init); st_hold := mk_amap accts ds (so_hold init);
                     st_orders := so_orders init |} in
-      check_steps cfg (cross accts ds) accts ds 0%N st0 init steps
+      let ms0 := {| ms_st := st0; ms_market_of := []; ms_markets := map (fun x => (P (fst x), snd x)) markets;
+                    ms_params := pr; ms_sanctioned := [] |} in
+      check_msteps w (cross accts ds) accts ds 0%N ms0 ms0 init steps
   end.
 
 Definition check_all := check_list check.
